@@ -75,7 +75,13 @@ def gen_tasks(tier, seed):
         if len(es) < 2:
             continue
         cs = [[list(e) for e in rng.sample(es, 2)]]
+        e_dup = rng.choice(es)
+        cs_dup = [[list(e_dup), list(rng.choice(es)), list(e_dup)]]          # the same edge listed twice
         for cov in (1.0, 0.5):
+            tasks.append({**base, "kind": "cover", "cls": "kPathCoverCycles", "edges": es, "constraints": cs_dup, "coverage": cov,
+                          "kwargs": {"k": 2, "subset_constraints": cs_dup, "subset_constraints_coverage": cov}})
+            tasks.append({**base, "kind": "lae", "cls": "kLeastAbsErrorsCycles", "edges": arb, "constraints": cs_dup, "coverage": cov,
+                          "kwargs": {"k": 2, "weight_type": "int", "subset_constraints": cs_dup, "subset_constraints_coverage": cov}})
             tasks.append({**base, "kind": "lae", "cls": "kLeastAbsErrorsCycles", "edges": arb, "constraints": cs, "coverage": cov,
                           "kwargs": {"k": 2, "weight_type": "int", "subset_constraints": cs, "subset_constraints_coverage": cov}})
             tasks.append({**base, "kind": "cover", "cls": "kPathCoverCycles", "edges": es, "constraints": cs, "coverage": cov,
